@@ -125,9 +125,11 @@ CLAIMED['C11'] = dict(
     technique='bounded symbolic execution (symx + z3) of the real resolution builder and validity guards; date/time end-to-end clauses shared with C06/C07',
     text=SX + 'set_parse_result/_date_time_resolution and helpers run on resolution dictionaries rendered by the real formatters from symbolic datetimes, one slice per '
          '(type, modifier, validity pattern): values have the promised shape, the type name equals the value type, min-value sides never appear, nothing valid gives exactly '
-         'one "not resolved", past precedes future. safe_create_from_min_value / is_valid_date / is_valid_time are checked on symbolic fields incl. out-of-range ones.',
+         'one "not resolved", past precedes future. safe_create_from_min_value / is_valid_date / is_valid_time are checked on symbolic fields incl. out-of-range ones.'
+         ' At API level every English DateTimeModel Specs input of a screened pool (47 quick, 900 thorough; expected outputs not consulted) runs through the whole real model with a symbolic reference datetime '
+         '(every minute 1950..2090): every emitted value must have the shape its type promises, date ranges start before end.',
     note='The per-type parsers are represented by the dictionaries they hand over. Non-existent input dates -> "not resolved" and definite TIMEX = value are decided end to end '
-         'for dates by C06 O6.2 and for times by C07. Corpus clause, set/timezone types and holiday tables are outside. ' + NOTE_COMMON,
+         'for dates by C06 O6.2 and for times by C07. Other cultures, set/timezone types and holiday tables are outside; known findings F45, F46 are excluded by input. ' + NOTE_COMMON,
     design='§5/C11')
 
 CLAIMED['C13'] = dict(
